@@ -202,7 +202,7 @@ def main(rep: Report, replay: dict | None) -> None:
     if replay:
         cases = [replay["scenario"]["case"]]
     else:
-        reps = 3 if rep.tier == "quick" else 24
+        reps = 3 if rep.tier == "quick" else 90
         cases = list(gen_cases(rng, reps))
 
     uniq: dict[str, dict] = {}
